@@ -220,6 +220,11 @@ mod inner {
         crate::verif::point(crate::verif::site::RIC_AFTER_WRITE);
         let callsites = &REGISTRY.callsites;
         rebuild_interest(callsites, &mut dispatchers);
+        #[cfg(feature = "verif-hooks")]
+        {
+            drop(dispatchers);
+            crate::verif::point(crate::verif::site::RIC_UNLOCKED);
+        }
     }
 
     /// Register a new [`Callsite`] with the global registry.
@@ -244,6 +249,11 @@ mod inner {
         REGISTRY.callsites.push(registration);
         #[cfg(feature = "verif-hooks")]
         crate::verif::point(crate::verif::site::REG_AFTER_PUSH);
+        #[cfg(feature = "verif-hooks")]
+        {
+            drop(dispatchers);
+            crate::verif::point(crate::verif::site::REG_UNLOCKED);
+        }
     }
 
     pub(crate) fn register_dispatch(dispatch: &Dispatch) {
@@ -260,6 +270,11 @@ mod inner {
         crate::verif::point(crate::verif::site::RD_AFTER_PUSH);
 
         rebuild_interest(callsites, &mut dispatchers);
+        #[cfg(feature = "verif-hooks")]
+        {
+            drop(dispatchers);
+            crate::verif::point(crate::verif::site::RD_UNLOCKED);
+        }
     }
 
     fn rebuild_callsite_interest(
